@@ -74,14 +74,11 @@ theorem okS_aug_inv (tg : SExp) (op : String) (e : SExp) (h : okS (.aug tg op e)
   | _ => simp [okS] at h
 
 theorem okS_for_inv (tg it : SExp) (b e : List SStmt) (h : okS (.for_ tg it b e) = true) :
-    ∃ v, tg = .name v ∧ e = [] ∧ userName v = true ∧ closedIter it = true ∧ okSs b = true := by
+    ∃ v, tg = .name v ∧ userName v = true ∧ closedIter it = true ∧ okSs b = true ∧ okSs e = true := by
   cases tg with
   | name v =>
-    cases e with
-    | nil =>
-      simp only [okS, Bool.and_eq_true] at h
-      exact ⟨v, rfl, rfl, h.1.1, h.1.2, h.2⟩
-    | cons _ _ => simp [okS] at h
+    simp only [okS, Bool.and_eq_true] at h
+    exact ⟨v, rfl, h.1.1.1, h.1.1.2, h.1.2, h.2⟩
   | _ => simp [okS] at h
 
 /-! ### replacements and syntax -/
@@ -271,12 +268,59 @@ def forStep (gs : List (SVal × Bool)) (v : String) (b : List SStmt) (σ : SEnv)
     | none => none
   | none => none
 
-theorem exec_for (gs : List (SVal × Bool)) (σ : SEnv) (v : String) (it : SExp) (b : List SStmt) :
-    exec gs σ (.for_ (.name v) it b []) = match staticVals it with
-      | some vals => vals.foldlM (forStep gs v b) σ
+theorem exec_for (gs : List (SVal × Bool)) (σ : SEnv) (v : String) (it : SExp) (b e : List SStmt) :
+    exec gs σ (.for_ (.name v) it b e) = match staticVals it with
+      | some vals =>
+        match vals.foldlM (forStep gs v b) σ with
+        | some σ1 => execList gs σ1 e
+        | none => none
       | none => none := by
   simp only [exec]
   rfl
+
+/-- two rewriting steps one after the other -/
+theorem stepOK_seq {θ : Subst} {st s1 st' : RSt} {L1 L2 : List SStmt} {a1 c1 a2 c2 : Bool}
+    {run1 run2 : List (SVal × Bool) → SEnv → Option SEnv}
+    (h1 : StepOK θ st s1 L1 a1 c1 run1) (h2 : StepOK θ s1 st' L2 a2 c2 run2) :
+    StepOK θ st st' (L1 ++ L2) (a1 && a2) (c1 && c2)
+      (fun gs σ => match run1 gs σ with | some σ1 => run2 gs σ1 | none => none) := by
+  obtain ⟨hk1, hu1, hg1, hn1, hs1⟩ := h1
+  obtain ⟨hk2, hu2, hg2, hn2, hs2⟩ := h2
+  refine ⟨hk2, by omega, ?_, ?_, ?_⟩
+  · intro x hx
+    simp only [List.mem_append] at hx
+    rcases hx with hx | hx
+    · exact (hg1 x hx).mono (Nat.le_refl _) hu2
+    · exact (hg2 x hx).mono hu1 (Nat.le_refl _)
+  · intro hh
+    simp only [Bool.and_eq_true] at hh
+    rw [hn2 hh.2, hn1 hh.1]
+  · intro Γ gs σs σr σr' hrel hθ hgs hΓ helse hfor hrun
+    simp only [List.map_append, wrapF_append, runA_append] at hrun
+    cases hr1 : runA σr (wrapF Γ (L1.map toStmt)) with
+    | none => simp [hr1] at hrun
+    | some σ1 =>
+      simp only [hr1] at hrun
+      have helse1 : a1 = false → elseOnly Γ = true := fun hh => helse (by simp [hh])
+      have helse2 : a2 = false → elseOnly Γ = true := fun hh => helse (by simp [hh])
+      have hfor1 : c1 = false → Γ = [] := fun hh => hfor (by simp [hh])
+      have hfor2 : c2 = false → Γ = [] := fun hh => hfor (by simp [hh])
+      have hΓ1 : GammaFresh st.uniq s1.uniq Γ := hΓ.mono (Nat.le_refl _) hu2
+      have hΓ2 := hΓ.mono hu1 (Nat.le_refl _)
+      obtain ⟨σs1, hex1, hrel1, hθ1, hfr1⟩ := hs1 Γ gs σs σr σ1 hrel hθ hgs hΓ1 helse1 hfor1 hr1
+      have hgs1 : guardVals σ1 Γ = some gs := by rw [guardVals_frame hfr1 hΓ1]; exact hgs
+      obtain ⟨σs2, hex2, hrel2, hθ2, hfr2⟩ := hs2 Γ gs σs1 σ1 σr' hrel1 hθ1 hgs1 hΓ2 helse2 hfor2 hrun
+      refine ⟨σs2, by simp only [hex1, hex2], hrel2, hθ2, ?_⟩
+      intro n hn hfresh
+      rw [hfr2 n hn (fun k hk1 hk2 => hfresh k (by omega) hk2),
+        hfr1 n hn (fun k hk1 hk2 => hfresh k hk1 (by omega))]
+
+theorem stepOK_congr {θ : Subst} {st st' : RSt} {L : List SStmt} {a c a' c' : Bool}
+    {run run' : List (SVal × Bool) → SEnv → Option SEnv} (h : StepOK θ st st' L a c run)
+    (ha : a' = a) (hc : c' = c) (hr : ∀ gs σ, run' gs σ = run gs σ) : StepOK θ st st' L a' c' run' := by
+  subst ha hc
+  have : run' = run := by funext gs σ; exact hr gs σ
+  rw [this]; exact h
 
 theorem stepOK_of_uniq {θ : Subst} {st s1 st' : RSt} {L : List SStmt} {a c : Bool}
     {run : List (SVal × Bool) → SEnv → Option SEnv} (h : StepOK θ s1 st' L a c run) (hu : s1.uniq = st.uniq) :
@@ -584,37 +628,37 @@ theorem ml_stmt : ∀ (s : SStmt), okS s = true → ∀ (θ : Subst) (st st' : R
           have h2 : σr' n = σ2 n := hfre n hn (fun k hk1 hk2 => hfresh k (by omega) (by omega))
           rw [h2, h1, set_ne _ _ _ _ (hfresh (s2.uniq + 1) (by omega) (by omega))]
   | .for_ tg it b e, hok, θ, st, st', L, h, hk, hib => by
-    obtain ⟨v, rfl, rfl, hv, hit, hb⟩ := okS_for_inv tg it b e hok
-    simp only [rwS, rm_bind_ok, substE_closedIter it hit θ] at h
-    obtain ⟨_, s0, hnote, vals, s1, hiter, hloop⟩ := h
+    obtain ⟨v, rfl, hv, hit, hb, he⟩ := okS_for_inv tg it b e hok
+    simp only [rwS, rm_bind_ok, rm_pure_ok, substE_closedIter it hit θ] at h
+    obtain ⟨_, s0, hnote, vals, s1, hiter, Lr, s2, hloop, Le, s3, htail, rfl, rfl⟩ := h
     have hc0 := noteFor_core _ _ _ _ hnote
     obtain ⟨hstatic, hc1, hvals⟩ := forIter_static it hit s0 s1 vals hiter
     have hk1 : KnownOK s1 := (hk.core hc0).core hc1
     have hu1 : s1.uniq = st.uniq := by rw [hc1.1, hc0.1]
-    have hexec : ∀ gs σs, exec gs σs (.for_ (.name v) it b []) = vals.foldlM (forStep gs v b) σs := by
-      intro gs σs; rw [exec_for, hstatic]
-    have hflag : (!hasIf (.for_ (.name v) it b [])) = (!hasIfs b) := by simp [hasIf, hasIfs]
-    have hflag2 : (!hasFor (.for_ (.name v) it b [])) = false := by simp [hasFor]
-    rw [hflag, hflag2]
-    rcases substE_name θ hib v with ⟨hname, hvθ⟩ | ⟨k, hconst⟩
-    · rw [hname] at hloop
-      have hmain := forLoop_ml θ v b hv hvθ
-        (fun val hval s s' L' hr hks => ml_list b hb (θ ++ [(v, val)]) s s' L' hr hks (by
-          intro p hp
-          simp only [List.mem_append, List.mem_singleton] at hp
-          rcases hp with hp | rfl
-          · exact hib p hp
-          · exact hval))
-        vals hvals s1 st' L hloop hk1
-      have := stepOK_of_uniq hmain hu1
-      simpa only [hexec] using this
-    · rw [hconst] at hloop
-      obtain ⟨rfl, rfl, rfl⟩ := forLoop_const k _ vals s1 st' L hloop
-      refine ⟨hk1, Nat.le_of_eq hu1.symm, fun x hx => by simp at hx, fun _ => hu1, ?_⟩
-      intro Γ gs σs σr σr' hrel hθ _ _ _ _ hrun
-      simp only [List.map_nil, wrapF_nil, runA, Option.some.injEq] at hrun
-      subst hrun
-      exact ⟨σs, by show exec gs σs _ = some σs; rw [hexec]; rfl, hrel, hθ, fun n _ _ => rfl⟩
+    have hloopOK : StepOK θ s1 s2 Lr (!hasIfs b) false (fun gs σs => vals.foldlM (forStep gs v b) σs) := by
+      rcases substE_name θ hib v with ⟨hname, hvθ⟩ | ⟨k, hconst⟩
+      · rw [hname] at hloop
+        exact forLoop_ml θ v b hv hvθ
+          (fun val hval s s' L' hr hks => ml_list b hb (θ ++ [(v, val)]) s s' L' hr hks (by
+            intro p hp
+            simp only [List.mem_append, List.mem_singleton] at hp
+            rcases hp with hp | rfl
+            · exact hib p hp
+            · exact hval))
+          vals hvals s1 s2 Lr hloop hk1
+      · rw [hconst] at hloop
+        obtain ⟨rfl, rfl, rfl⟩ := forLoop_const k _ vals s1 s2 Lr hloop
+        refine ⟨hk1, Nat.le_refl _, fun x hx => by simp at hx, fun _ => rfl, ?_⟩
+        intro Γ gs σs σr σr' hrel hθ _ _ _ _ hrun
+        simp only [List.map_nil, wrapF_nil, runA, Option.some.injEq] at hrun
+        subst hrun
+        exact ⟨σs, rfl, hrel, hθ, fun n _ _ => rfl⟩
+    have htailOK := ml_list e he θ s2 _ Le htail hloopOK.1 hib
+    refine stepOK_of_uniq (stepOK_congr (stepOK_seq hloopOK htailOK) ?_ ?_ ?_) hu1
+    · simp [hasIf, Bool.not_or]
+    · simp [hasFor]
+    · intro gs σ
+      rw [exec_for, hstatic]
   | .ann _ _ _, hok, _, _, _, _, _, _, _ => by simp [okS] at hok
   | .ret _, hok, _, _, _, _, _, _, _ => by simp [okS] at hok
   | .expr _, hok, _, _, _, _, _, _, _ => by simp [okS] at hok
